@@ -62,6 +62,9 @@ def work(item):
         pos += [S.var(x, 'a') > 0, S.var(x, 'b') > 0]
     D = Decider(timeout_ms=20000)
     r0, _ = D.decide(cons + pos, ladder=False)
+    if r0 != 'sat':
+        # the default tactic can time out on the largest topologies: the satisfiability witness may come from the nlsat rung, with more time
+        r0, _ = D.decide(cons + pos, ladder=True, timeout_ms=120000)
     rec['reach'] = r0
     rec['n_eq'] = len(S.endo)
     rec['params'] = sorted(params)
